@@ -4,6 +4,7 @@
    are the ones [c09_holds] evaluates on the implementation's observations. *)
 From Boltons Require Import Lib.Prelude Spec.C09_Spec Model.C09_Model.
 From Boltons Require Import Proofs.C09_Strip Proofs.C09_Chunked Proofs.C09_Split Proofs.C09_Group.
+From Boltons Require Import Proofs.C09_Windowed Proofs.C09_Ranges Proofs.C09_Redundant.
 
 (* ======================= chunked / chunked_iter ========================== *)
 (* for every input, every size >= 1 and every fill: the generator terminates
@@ -188,3 +189,100 @@ Print Assumptions C09_partition_is_filter_pair.
 Example C09_partition_ex :
   m_partition (fun x => Nat.even x) [1; 2; 3; 4; 6] = ([2; 4; 6], [1; 3]).
 Proof. reflexivity. Qed.
+
+(* ============================ windowed / pairwise ========================= *)
+(* tee + staggered advance + zip / zip_longest yield exactly the contiguous
+   length-size slices in order; with fill one window per element, padded *)
+Theorem C09_windowed_is_slices :
+  forall src size fill, 1 <= size -> m_windowed src size fill = spec_windowed src size fill.
+Proof. exact m_windowed_spec. Qed.
+Print Assumptions C09_windowed_is_slices.
+
+Theorem C09_pairwise_is_slices :
+  forall src fill, m_pairwise src fill = spec_windowed src 2 fill.
+Proof. exact m_pairwise_spec. Qed.
+Print Assumptions C09_pairwise_is_slices.
+
+Example C09_windowed_ex :
+  m_windowed [1; 2; 3; 4] 3 None = [[1; 2; 3]; [2; 3; 4]]
+  /\ m_windowed [1; 2; 3; 4] 3 (Some 0) = [[1; 2; 3]; [2; 3; 4]; [3; 4; 0]; [4; 0; 0]]
+  /\ m_windowed [1; 2] 5 None = [] /\ m_pairwise [1; 2; 3] (Some 9) = [[1; 2]; [2; 3]; [3; 9]].
+Proof. repeat split; reflexivity. Qed.
+
+(* laws of the reference: how many windows, their exact length, and (with
+   fill) that item k of window j is item j+k of the input or the fill *)
+Theorem C09_windowed_laws :
+  forall l n fill, 1 <= n ->
+    length (spec_windowed l n fill)
+    = match fill with None => S (length l) - n | Some _ => length l end
+    /\ Forall (fun w => length w = n) (spec_windowed l n fill)
+    /\ (forall f j k, fill = Some f -> j < length l -> k < n ->
+          nth k (nth j (spec_windowed l n fill) []) f = nth (j + k) l f).
+Proof.
+  exact (fun l n fill H =>
+    conj (spec_windowed_count l n fill)
+   (conj (spec_windowed_sizes l n fill H)
+         (fun f j k E Hj Hk =>
+            eq_ind_r (fun fl => nth k (nth j (spec_windowed l n fl) []) f = nth (j + k) l f)
+                     (spec_windowed_nth l n f j k H Hj Hk) E))).
+Qed.
+Print Assumptions C09_windowed_laws.
+
+(* ============================ redundant ================================== *)
+(* the seen / redundant_order / redundant_groups loop reports exactly the
+   second sighting of every key seen more than once, in order of second
+   sighting; with groups=True all elements of each such key *)
+Theorem C09_redundant_second_sightings :
+  forall key src, m_redundant key src = spec_redundant key src.
+Proof. exact m_redundant_spec. Qed.
+Print Assumptions C09_redundant_second_sightings.
+
+Theorem C09_redundant_groups_complete :
+  forall key src, m_redundant_groups key src = spec_redundant_groups key src.
+Proof. exact m_redundant_groups_spec. Qed.
+Print Assumptions C09_redundant_groups_complete.
+
+Example C09_redundant_ex :
+  m_redundant (fun x => x) [1; 2; 3; 2; 3; 3; 4] = [2; 3]
+  /\ m_redundant_groups (fun x => x) [1; 2; 3; 2; 3; 3; 4] = [[2; 2]; [3; 3; 3]]
+  /\ m_redundant (fun x => x mod 2) [1; 2; 3; 4] = [3; 4].
+Proof. repeat split; reflexivity. Qed.
+
+(* "reports exactly the keys seen more than once", each once *)
+Theorem C09_redundant_exactly_repeated_keys :
+  forall key src,
+    (forall k, In k (map key (spec_redundant key src))
+               <-> 2 <= length (filter (fun y => Nat.eqb (key y) k) src))
+    /\ NoDup (map key (spec_redundant key src)).
+Proof. exact (fun key src => conj (redundant_reports_key key src) (redundant_keys_nodup key src)). Qed.
+Print Assumptions C09_redundant_exactly_repeated_keys.
+
+(* ============================ chunk_ranges =============================== *)
+(* for all valid parameters (0 <= input_size, 1 <= chunk_size, 0 <= offset,
+   0 <= overlap < chunk_size, either align) the generator terminates and its
+   ranges: are no longer than chunk_size and lie inside the input; start at
+   input_offset and end at input_offset + input_size; each begins exactly
+   overlap_size before the previous end; with align every begin after the
+   first is a multiple of chunk_size - overlap_size; cover every index *)
+Theorem C09_chunk_ranges_good :
+  forall size chunk offset overlap align,
+    valid_ranges_params size chunk offset overlap = true ->
+    exists rs, m_chunk_ranges size chunk offset overlap align = Ok rs
+               /\ ranges_good size chunk offset overlap align rs.
+Proof. exact m_chunk_ranges_good. Qed.
+Print Assumptions C09_chunk_ranges_good.
+
+(* ... hence the checker evaluated by [holds] accepts the model's output *)
+Theorem C09_chunk_ranges_refines_spec :
+  forall size chunk offset overlap align,
+    valid_ranges_params size chunk offset overlap = true ->
+    exists rs, m_chunk_ranges size chunk offset overlap align = Ok rs
+               /\ ranges_ok size chunk offset overlap align rs = true.
+Proof. exact m_chunk_ranges_ok. Qed.
+Print Assumptions C09_chunk_ranges_refines_spec.
+
+Example C09_chunk_ranges_ex :
+  m_chunk_ranges 15 5 3 1 true = Ok [(3, 5); (4, 9); (8, 13); (12, 17); (16, 18)]%Z
+  /\ m_chunk_ranges 10 5 10 2 false = Ok [(10, 15); (13, 18); (16, 20)]%Z
+  /\ valid_ranges_params 15 5 3 1 = true.
+Proof. repeat split; reflexivity. Qed.
